@@ -59,7 +59,11 @@ Inductive case :=
        (ivs : list Z) (ierr : Z) (ipub : option otx) (irate ipos ifee : Z)
        (evs : list pev)
 | CSet (ins : list binp) (utxos : list Z) (need0 : bool) (e : Z)
-       (after : list binp) (need1 : bool) (budget : Z).
+       (after : list binp) (need1 : bool) (budget : Z)
+| CSw (reqs : list (list (option Z) * option Z))      (* per BumpRequest of a composed
+         sweeper history: the inputs' stored starting rates, the request's StartingFeeRate *)
+      (fails : list (Z * option Z)).                  (* per TxFailed result: its FeeRate,
+         the starting rate stored on the set's inputs afterwards *)
 
 Definition binp_eqb (a b : binp) : bool :=
   (b_value a =? b_value b) && (b_budget a =? b_budget b) && Bool.eqb (b_req a) (b_req b).
@@ -68,6 +72,27 @@ Fixpoint binps_eqb (a b : list binp) : bool :=
   | [], [] => true
   | x :: a', y :: b' => binp_eqb x y && binps_eqb a' b'
   | _, _ => false
+  end.
+
+Definition zopt_eqb (a b : option Z) : bool :=
+  match a, b with
+  | None, None => true
+  | Some x, Some y => x =? y
+  | _, _ => false
+  end.
+
+Fixpoint check_starts (reqs : list (list (option Z) * option Z)) (i : Z) : list Z :=
+  match reqs with
+  | [] => []
+  | (starts, obs) :: rest =>
+    (if zopt_eqb (set_starting_fee_rate starts) obs then [] else [i]) ++ check_starts rest (i + 1)
+  end.
+
+Fixpoint check_fails (fails : list (Z * option Z)) (i : Z) : list Z :=
+  match fails with
+  | [] => []
+  | (rate, obs) :: rest =>
+    (if zopt_eqb (retry_start rate) obs then [] else [i]) ++ check_fails rest (i + 1)
   end.
 
 Fixpoint check_obs (f : ff) (obs : list (Z * Z)) (i : Z) : list Z :=
@@ -142,6 +167,7 @@ Definition check_case (c : case) : list Z :=
     if Bool.eqb (need_wallet_input 0 ins) need0 && (code =? e) && binps_eqb l' after
        && Bool.eqb (need_wallet_input 0 l') need1 && (set_budget 0 l' =? budget)
     then [] else [0]
+  | CSw reqs fails => check_starts reqs 0 ++ check_fails fails 1000
   | CPub ins weight floor budget maxrate h0 deadline relay ans start ivs ierr ipub irate ipos ifee evs =>
     match initial_broadcast64 ins weight floor budget maxrate h0 deadline relay
                               (ans_of ans) start (map verdict_of ivs) with
